@@ -185,6 +185,46 @@ def gen_seam(rng):
     return tuple(ops)
 
 
+def gen_seam_nested(rng):
+    """the seam again, with NESTING on both sides of it: an IPv4 block of A that strictly contains a block of B and
+    an IPv6 block of A that strictly contains a block of B, the IPv6 block starting (as an integer) right after the
+    IPv4 block ends - the sweeps of `-` and `^` then have a trailing IPv4 remainder and a leading IPv6 remainder that
+    are adjacent as integers and must NOT be joined (seeds C07-r10-1/2 compared integers only inside _subtract)"""
+    k = rng.choice([1, 1, 2, 2, 3, 4, 6, 8])
+    b = (rng.choice([0, 0, 5, 0x0a0000, rng.getrandbits(20)]) << (k + 1)) & 0xffffffff
+    a4 = ('N', 4, b, 32 - k, 'net')                       # [b, b + 2^k - 1]
+    a6 = ('N', 6, b + (1 << k), 128 - k, 'net')           # [b + 2^k, b + 2^(k+1) - 1]: starts right behind it
+    n = 1 << k
+    # B: something inside the IPv4 block that leaves a trailing remainder, something inside the IPv6 block that
+    # leaves a leading remainder (and variations)
+    c4 = rng.choice([b, b + rng.randrange(n - 1)]) if n > 1 else b
+    c6 = b + n + (rng.choice([n - 1, 1 + rng.randrange(n - 1)]) if n > 1 else 0)
+    inner = []
+    r = rng.random()
+    if r < 0.7:
+        inner.append(('N', 4, c4, 32, rng.choice(['net', 'addr'])))
+    if r > 0.2:
+        inner.append(('N', 6, c6, 128, rng.choice(['net', 'addr'])))
+    if rng.random() < 0.3 and k >= 2:
+        inner.append(('N', 6, b + n + (n >> 1), 128 - k + 1, 'net'))      # the upper half of the IPv6 block
+    A = [a4, a6]
+    if rng.random() < 0.3:
+        A.append(('N', 4, (b + 4 * n) & 0xffffffff, 32, 'net'))
+    rng.shuffle(A)
+    ops = [('new', 0, 'list', tuple(A)), ('new', 1, 'list', tuple(inner))]
+    for _ in range(rng.randrange(1, 4)):
+        x, y = (0, 1) if rng.random() < 0.7 else (1, 0)
+        op = rng.choice(['sub', 'xor', 'sub', 'xor', 'and', 'or'])
+        if rng.random() < 0.25:
+            ops.append(('bin', x, x, y, op))               # augmented spelling
+            ops.append(('q', x, y, ('N', 6, b + n, 128, 'addr')))
+        else:
+            ops.append(('bin', 2, x, y, op))
+            ops.append(('q', 2, x, ('N', 4, (b + n - 1) & 0xffffffff, 32, 'addr')))
+            ops.append(('q', 2, y, ('N', 6, b + n, 128, 'addr')))
+    return tuple(ops)
+
+
 def gen_biglen(rng):
     """IPv6 sets whose total size is around sys.maxsize while every single block is well below it
     (several /66 ... /70 blocks, or the range 0 .. sys.maxsize-1 plus a little): len() must give the
@@ -328,7 +368,7 @@ def gen_history(rng, tier, raw=False):
     if r0 < 0.22:
         return gen_punctured(rng)
     if r0 < 0.26:
-        return gen_seam(rng)
+        return gen_seam(rng) if rng.random() < 0.5 else gen_seam_nested(rng)
     if r0 < 0.28:
         return gen_biglen(rng)
     if r0 < 0.33:
